@@ -406,31 +406,41 @@ theorem expr_ok {R : List Resource} {V : List BVal} {env : VEnv} (cx : Ctx R V e
 
 /-! ### balances: the VM's primitives are `Spec`'s on machines whose inner maps exist -/
 
-/-- every tracked amount lives in an account that has an inner map -/
-def BalOK (A : List Acct) (b : Bal) : Prop := ∀ a s, (b.get a s).isSome = true → A.contains a = true
+/-- every tracked amount lives in an account that has an inner map, and the entries `E` (the needed balances of
+the program) exist -/
+def BalOK (A : List Acct) (E : List (Acct × Asset)) (b : Bal) : Prop :=
+  (∀ a s, (b.get a s).isSome = true → A.contains a = true) ∧ (∀ e ∈ E, (b.get e.1 e.2).isSome = true)
+
+variable {E : List (Acct × Asset)}
 
 /-- every part of a funding comes from an account that has an inner map -/
 def PartsIn (A : List Acct) (ps : Parts) : Prop := ∀ p ∈ ps, A.contains p.acct = true
 
-theorem BalOK.upd {A : List Acct} {b : Bal} (h : BalOK A b) {a : Acct} (ha : A.contains a = true) (s : Asset) (v : Int) :
-    BalOK A (b.upd a s v) := by
-  intro a' s' hs
-  simp only [Bal.upd] at hs
-  split at hs
-  · rename_i hc; rw [hc.1]; exact ha
-  · exact h a' s' hs
+theorem BalOK.upd {A : List Acct} {b : Bal} (h : BalOK A E b) {a : Acct} (ha : A.contains a = true) (s : Asset) (v : Int) :
+    BalOK A E (b.upd a s v) := by
+  constructor
+  · intro a' s' hs
+    simp only [Bal.upd] at hs
+    split at hs
+    · rename_i hc; rw [hc.1]; exact ha
+    · exact h.1 a' s' hs
+  · intro e he
+    simp only [Bal.upd]
+    split
+    · rfl
+    · exact h.2 e he
 
-theorem withdrawAll_eq {B : Balances} (hok : BalOK B.accts B.bal) (a : Acct) (s : Asset) (o : Int) :
+theorem withdrawAll_eq {B : Balances} (hok : BalOK B.accts E B.bal) (a : Acct) (s : Asset) (o : Int) :
     match Num.withdrawAll B.bal a s o with
     | .error er => VM.withdrawAll B a s o = .error er
-    | .ok (p, b') => p.acct = a ∧ B.accts.contains a = true ∧ BalOK B.accts b' ∧ ∃ ks, VM.withdrawAll B a s o = .ok (p, ⟨B.accts, ks, b'⟩) := by
+    | .ok (p, b') => p.acct = a ∧ B.accts.contains a = true ∧ BalOK B.accts E b' ∧ ∃ ks, VM.withdrawAll B a s o = .ok (p, ⟨B.accts, ks, b'⟩) := by
   unfold Num.withdrawAll VM.withdrawAll Balances.hasAcct
   cases hg : B.bal.get a s with
   | none =>
     simp only
     split <;> rfl
   | some t =>
-    have ha : B.accts.contains a = true := hok a s (by simp [hg])
+    have ha : B.accts.contains a = true := hok.1 a s (by simp [hg])
     simp only [ha, Bool.not_true, Bool.false_eq_true, if_false]
     by_cases hc : t + o > 0
     · simp only [hc, if_true]
@@ -438,22 +448,22 @@ theorem withdrawAll_eq {B : Balances} (hok : BalOK B.accts B.bal) (a : Acct) (s 
     · simp only [hc, if_false]
       refine ⟨?_, ?_, hok, B.keys, rfl⟩ <;> first | rfl | trivial | exact ha
 
-theorem withdrawAlways_eq {B : Balances} (hok : BalOK B.accts B.bal) (a : Acct) (s : Asset) (n : Int) :
+theorem withdrawAlways_eq {B : Balances} (hok : BalOK B.accts E B.bal) (a : Acct) (s : Asset) (n : Int) :
     match Num.withdrawAlways B.bal a s n with
     | .error er => VM.withdrawAlways B a s n = .error er
-    | .ok (p, b') => p = ⟨a, n⟩ ∧ B.accts.contains a = true ∧ BalOK B.accts b' ∧ ∃ ks, VM.withdrawAlways B a s n = .ok (p, ⟨B.accts, ks, b'⟩) := by
+    | .ok (p, b') => p = ⟨a, n⟩ ∧ B.accts.contains a = true ∧ BalOK B.accts E b' ∧ ∃ ks, VM.withdrawAlways B a s n = .ok (p, ⟨B.accts, ks, b'⟩) := by
   unfold Num.withdrawAlways VM.withdrawAlways Balances.hasAcct
   cases hg : B.bal.get a s with
   | none =>
     simp only
     split <;> rfl
   | some t =>
-    have ha : B.accts.contains a = true := hok a s (by simp [hg])
+    have ha : B.accts.contains a = true := hok.1 a s (by simp [hg])
     simp only [ha, Bool.not_true, Bool.false_eq_true, if_false]
     refine ⟨?_, ?_, hok.upd ha _ _, _, rfl⟩ <;> first | rfl | trivial | exact ha
 
-theorem repay_eq {A : List Acct} {ks : List (Acct × Asset)} {b : Bal} (hok : BalOK A b) (s : Asset) {ps : Parts} (hp : PartsIn A ps) :
-    BalOK A (Num.repay b s ps) ∧ ∃ ks', VM.repay ⟨A, ks, b⟩ s ps = some ⟨A, ks', Num.repay b s ps⟩ := by
+theorem repay_eq {A : List Acct} {ks : List (Acct × Asset)} {b : Bal} (hok : BalOK A E b) (s : Asset) {ps : Parts} (hp : PartsIn A ps) :
+    BalOK A E (Num.repay b s ps) ∧ ∃ ks', VM.repay ⟨A, ks, b⟩ s ps = some ⟨A, ks', Num.repay b s ps⟩ := by
   induction ps generalizing ks b with
   | nil => exact ⟨hok, ks, rfl⟩
   | cons p rest ih =>
@@ -845,29 +855,29 @@ end
     (m.upd S ks b).balances.accts = m.balances.accts := rfl
 
 /-- what the code of a source does, in `Spec`'s words -/
-def SrcSpec (V : List BVal) (env : VEnv) (asset : Asset) (s : Source) (so : SrcOut) : Prop :=
-  ∀ (m : Machine) (S : List BVal) (ks : List (Acct × Asset)) (b : Bal), BalOK m.balances.accts b →
+def SrcSpec (V : List BVal) (env : VEnv) (asset : Asset) (E : List (Acct × Asset)) (s : Source) (so : SrcOut) : Prop :=
+  ∀ (m : Machine) (S : List BVal) (ks : List (Acct × Asset)) (b : Bal), BalOK m.balances.accts E b →
     match evalSource env asset s b with
     | .error er => exec V so.code (m.upd S ks b) = .error er
-    | .ok (f, fb, b') => FbRel V so.fallback fb ∧ BalOK m.balances.accts b' ∧ PartsIn m.balances.accts f.parts ∧
+    | .ok (f, fb, b') => FbRel V so.fallback fb ∧ BalOK m.balances.accts E b' ∧ PartsIn m.balances.accts f.parts ∧
         ∃ ks', exec V so.code (m.upd S ks b) = .ok (m.upd (.funding f.asset f.parts :: S) ks' b')
 
 def fundVals (fs : List Fund) : List BVal := fs.map (fun f => BVal.funding f.asset f.parts)
 
-def SrcsSpec (V : List BVal) (env : VEnv) (asset : Asset) (ss : SourceList) (so : SrcOut) : Prop :=
-  ∀ (m : Machine) (S : List BVal) (ks : List (Acct × Asset)) (b : Bal), BalOK m.balances.accts b →
+def SrcsSpec (V : List BVal) (env : VEnv) (asset : Asset) (E : List (Acct × Asset)) (ss : SourceList) (so : SrcOut) : Prop :=
+  ∀ (m : Machine) (S : List BVal) (ks : List (Acct × Asset)) (b : Bal), BalOK m.balances.accts E b →
     match evalSources env asset ss b with
     | .error er => exec V so.code (m.upd S ks b) = .error er
-    | .ok (fs, fb, b') => FbRel V so.fallback fb ∧ BalOK m.balances.accts b' ∧ (∀ f ∈ fs, PartsIn m.balances.accts f.parts) ∧
+    | .ok (fs, fb, b') => FbRel V so.fallback fb ∧ BalOK m.balances.accts E b' ∧ (∀ f ∈ fs, PartsIn m.balances.accts f.parts) ∧
         fs.length = ss.len ∧
         ∃ ks', exec V so.code (m.upd S ks b) = .ok (m.upd (fundVals fs.reverse ++ S) ks' b')
 
 /-- `OP_TAKE_ALL` on `mon :: acct :: S` -/
 theorem step_takeAll (V : List BVal) (m : Machine) (S : List BVal) (ks : List (Acct × Asset)) (b : Bal)
-    (hok : BalOK m.balances.accts b) (x : Acct) (s : Asset) (o : Int) :
+    (hok : BalOK m.balances.accts E b) (x : Acct) (s : Asset) (o : Int) :
     match Num.withdrawAll b x s o with
     | .error er => step V .takeAll (m.upd (.mon s o :: .acct x :: S) ks b) = .error er
-    | .ok (p, b') => p.acct = x ∧ m.balances.accts.contains x = true ∧ BalOK m.balances.accts b' ∧
+    | .ok (p, b') => p.acct = x ∧ m.balances.accts.contains x = true ∧ BalOK m.balances.accts E b' ∧
         ∃ ks', step V .takeAll (m.upd (.mon s o :: .acct x :: S) ks b) = .ok (m.upd (.funding s [p] :: S) ks' b') := by
   have h := withdrawAll_eq (B := ⟨m.balances.accts, ks, b⟩) hok x s o
   cases hw : Num.withdrawAll b x s o with
@@ -883,10 +893,10 @@ theorem step_takeAll (V : List BVal) (m : Machine) (S : List BVal) (ks : List (A
 
 /-- `OP_TAKE_ALWAYS` on `mon :: acct :: S` -/
 theorem step_takeAlways (V : List BVal) (m : Machine) (S : List BVal) (ks : List (Acct × Asset)) (b : Bal)
-    (hok : BalOK m.balances.accts b) (x : Acct) (s : Asset) (n : Int) :
+    (hok : BalOK m.balances.accts E b) (x : Acct) (s : Asset) (n : Int) :
     match Num.withdrawAlways b x s n with
     | .error er => step V .takeAlways (m.upd (.mon s n :: .acct x :: S) ks b) = .error er
-    | .ok (p, b') => p = ⟨x, n⟩ ∧ m.balances.accts.contains x = true ∧ BalOK m.balances.accts b' ∧
+    | .ok (p, b') => p = ⟨x, n⟩ ∧ m.balances.accts.contains x = true ∧ BalOK m.balances.accts E b' ∧
         ∃ ks', step V .takeAlways (m.upd (.mon s n :: .acct x :: S) ks b) = .ok (m.upd (.funding s [p] :: S) ks' b') := by
   have h := withdrawAlways_eq (B := ⟨m.balances.accts, ks, b⟩) hok x s n
   cases hw : Num.withdrawAlways b x s n with
@@ -902,8 +912,8 @@ theorem step_takeAlways (V : List BVal) (m : Machine) (S : List BVal) (ks : List
 
 /-- `OP_REPAY` on `funding :: S` whose parts come from accounts with an inner map -/
 theorem step_repay (V : List BVal) (m : Machine) (S : List BVal) (ks : List (Acct × Asset)) (b : Bal)
-    (hok : BalOK m.balances.accts b) (s : Asset) {ps : Parts} (hp : PartsIn m.balances.accts ps) :
-    BalOK m.balances.accts (Num.repay b s ps) ∧
+    (hok : BalOK m.balances.accts E b) (s : Asset) {ps : Parts} (hp : PartsIn m.balances.accts ps) :
+    BalOK m.balances.accts E (Num.repay b s ps) ∧
     ∃ ks', step V .repay (m.upd (.funding s ps :: S) ks b) = .ok (m.upd S ks' (Num.repay b s ps)) := by
   obtain ⟨h1, ks', h2⟩ := repay_eq (ks := ks) hok s hp
   refine ⟨h1, ks', ?_⟩
@@ -992,7 +1002,7 @@ theorem step_assemble2 (V : List BVal) (m : Machine) (S : List BVal) (ks : List 
 /-- the tail `TAKE_MAX; BUMP 1; REPAY; …` shared by `max … from` and `TakeFromSource` with a fallback, and the
 one without: from `mon cap :: funding f :: S` -/
 theorem maxTail_none (V : List BVal) (m : Machine) (S : List BVal) (ks : List (Acct × Asset)) (b : Bal)
-    (hok : BalOK m.balances.accts b) (ma fa : Asset) (mn : Int) (fp : Parts) (hp : PartsIn m.balances.accts fp) :
+    (hok : BalOK m.balances.accts E b) (ma fa : Asset) (mn : Int) (fp : Parts) (hp : PartsIn m.balances.accts fp) :
     ∃ ks', runEmits V [.op .takeMax, .bump 1, .op .repay, .bump 1, .op .delete] (m.upd (.mon ma mn :: .funding fa fp :: S) ks b) =
       if mn < 0 then .error .runtimeOther else
       if fa ≠ ma then .error .invalidScript else
@@ -1008,7 +1018,7 @@ theorem maxTail_none (V : List BVal) (m : Machine) (S : List BVal) (ks : List (A
     · simp [runEmits, step_takeMax, h1, h2]
 
 theorem maxTail_some (V : List BVal) (m : Machine) (S : List BVal) (ks : List (Acct × Asset)) (b : Bal)
-    (hok : BalOK m.balances.accts b) (ma fa : Asset) (mn : Int) (fp : Parts) (hp : PartsIn m.balances.accts fp)
+    (hok : BalOK m.balances.accts E b) (ma fa : Asset) (mn : Int) (fp : Parts) (hp : PartsIn m.balances.accts fp)
     (fbA : Addr) (w : Acct) (hw : V[fbA]? = some (.acct w)) :
     ∃ ks', runEmits V [.op .takeMax, .bump 1, .op .repay, .pushAddr fbA, .bump 2, .op .takeAlways, .pushInt 2, .op .fundingAssemble]
         (m.upd (.mon ma mn :: .funding fa fp :: S) ks b) =
@@ -1094,7 +1104,7 @@ theorem source_ok {R : List Resource} {V : List BVal} {env : VEnv} (cx : Ctx R V
     (hpa : ∀ m, exec V pa m = .ok (m.push (.asset asset)))
     {st : CState} {isAll : Bool} {s : Source} {so : SrcOut}
     (hv : visitSource st pa isAll s = .ok so) (hsub : Sub so.st R) (hidx : VarIdxOK st) (hf : s.frag = true) :
-    SrcSpec V env asset s so := by
+    SrcSpec V env asset E s so := by
   cases s with
   | acct e od =>
     simp only [Source.frag, Bool.and_eq_true] at hf
@@ -1382,7 +1392,7 @@ theorem sources_ok {R : List Resource} {V : List BVal} {env : VEnv} (cx : Ctx R 
     {st : CState} {isAll : Bool} {ss : SourceList} {nd em : List Addr} {so : SrcOut} {n : Nat}
     (hv : visitSources st pa isAll ss nd em = .ok (so, n)) (hsub : Sub so.st R) (hidx : VarIdxOK st) (hf : ss.frag = true)
     (hnd : AcctAddrs st.resources nd) :
-    n = ss.len ∧ SrcsSpec V env asset ss so := by
+    n = ss.len ∧ SrcsSpec V env asset E ss so := by
   cases ss with
   | nil =>
     simp only [visitSources, Except.ok.injEq, Prod.mk.injEq] at hv
